@@ -20,10 +20,10 @@ def strategies_for(opts_rng):
     rng = opts_rng
     drop = rng.random() < 0.5
     return [
-        words.Expand(drop=drop, order=rng.choice((0, 1, 2)), plus=False),
-        words.Expand(drop=drop, order=rng.choice((0, 1, 2)), plus=True),
+        words.Expand(drop=drop, order=rng.choice((0, 1, 2)), plus=False, dead=rng.random() < 0.5),
+        words.Expand(drop=drop, order=rng.choice((0, 1, 2)), plus=True, dead=rng.random() < 0.5),
         words.RemoveFront(drop=drop, atom_last=rng.random() < 0.5, split=rng.random() < 0.5,
-                          swap=rng.random() < 0.4),
+                          swap=rng.random() < 0.4, merge=rng.random() < 0.5),
         words.LetterSym(),
         words.MinimisePatterns(),
         words.DropDeadStat(),
